@@ -186,7 +186,9 @@ def job_grammar(job):
 POOL = {4: [b"192.168.1.5,AA:BB,AirTouch4,4001", b"10.0.0.9,CC:DD,AirTouch4,4002", b"192.168.1.5,AA:BB,AirTouch4,4001",
             b"HF-A11ASSISTHREAD", b"192.168.1.5,AirTouch4", b"1.2.3.4,s,AirTouch5,id,Name"],
         5: [b"192.168.1.5,C1,AirTouch5,5001,Home, sweet, home", b"10.0.0.9,C2,AirTouch5,5002,Other", b"192.168.1.5,C1,AirTouch5,5001,Home, sweet, home",
-            b"::REQUEST-POLYAIRE-AIRTOUCH-DEVICE-INFO:;", b"192.168.1.5,C1,AirTouch5,5001", b"1.2.3.4,s,AirTouch4,id"]}
+            b"::REQUEST-POLYAIRE-AIRTOUCH-DEVICE-INFO:;", b"192.168.1.5,C1,AirTouch5,5001", b"1.2.3.4,s,AirTouch4,id",
+            # the same console under another name (renamed between two answers): a different vendor-format datagram
+            b"192.168.1.5,C1,AirTouch5,5001,Renamed"]}
 CORNERS = [0.0, EPS, 0.25, 0.5 - EPS, 0.5, 0.5 + EPS, 1.0 - EPS, 1.0, 1.0 + EPS, 1.5 - EPS, 1.5, 2.0]
 
 
@@ -232,7 +234,7 @@ def job_discover(job):
         return 1, "discover", "pyairtouch.discover() did not return within 3 s"
     got = sorted((a.model.name, a.host, a.airtouch_id, a.name, a._socket.port) for a in out["r"])
     exp = sorted([("AIRTOUCH_4", "192.168.1.5", "4001", "AirTouch 4", 9004), ("AIRTOUCH_4", "10.0.0.9", "4002", "AirTouch 4", 9004),
-                  ("AIRTOUCH_5", "192.168.1.5", "5001", "Home, sweet, home", 9005), ("AIRTOUCH_5", "10.0.0.9", "5002", "Other", 9005)])
+                  ("AIRTOUCH_5", "192.168.1.5", "5001", "Home, sweet, home", 9005), ("AIRTOUCH_5", "10.0.0.9", "5002", "Other", 9005), ("AIRTOUCH_5", "192.168.1.5", "5001", "Renamed", 9005)])
     if got != exp:
         return 1, "discover", f"discover({remote!r}) returned {got}, expected {exp}"
     if any(not t._closing for t in w.net.dgram):
